@@ -119,6 +119,15 @@ def sa_type(spec):
     raise ValueError(spec)
 
 
+def _limit_spec(spec, pos):
+    """LIMIT / OFFSET take a non-negative 31-bit int: derive one from whatever value was drawn (valid by construction)"""
+    if pos not in ("limit", "offset"):
+        return spec
+    if spec["t"] == "int":
+        return {"t": "int", "v": abs(int(spec["v"])) % 2**31}
+    return {"t": "int", "v": len(repr(sorted(spec.items()))) % 40}
+
+
 def triggers(v):
     """which of the compiler's own regexes match inside the value"""
     out = set()
@@ -281,9 +290,8 @@ def check_live(case, ctx):
     spec = case["val"]
     pos = case["pos"]
     pinned = bool(case.get("pinned"))
+    spec = _limit_spec(spec, pos)
     v0, kind = value_of(spec)
-    if pos == "limit" and not (kind == "int" and 0 <= v0 < 2**31):
-        pos = "select"
     if kind == "decimal" and abs(v0) >= 10**15:
         # SQLite has no decimal type: the bound run sends float(v).  Keep the live domain where that float is exact enough
         # (|v| < 1e15 < 2**53) - larger magnitudes stay in the token sub-check
@@ -495,9 +503,8 @@ def check_token(case, ctx):
     mode = case["mode"]
     pinned = bool(case.get("pinned"))
     only = case.get("only")
+    spec = _limit_spec(spec, pos)
     v0, kind = value_of(spec)
-    if pos in ("limit", "offset") and not (kind == "int" and 0 <= v0 < 2**31):
-        pos = "select"
     classes = {kind, pos, mode}
     nontriv = interesting(v0, kind)
     trig = triggers(v0)
